@@ -173,7 +173,7 @@ def run(tier, seed, opens):
         # all of them, in order, whatever part came from the cache
         for n in range(1, 4):
             for flags in itertools.product((False, None), repeat=n):
-                for cached in itertools.product((False, True), repeat=n):
+                for cached in list(itertools.product((False, True), repeat=n)) + ['sync']:
                     cfg += 1
                     db = 'sqlite:///' + os.path.join(tmp, 'u%d.sqlite' % cfg)
                     state['chain'] = [make_tx(i, 100 + i) for i in range(n)]
@@ -182,13 +182,19 @@ def run(tier, seed, opens):
                         t.outputs[1].spent = kn
                     state['down'] = False
                     want = [t.txid for t in state['chain']]
-                    scen = {'outputs_spent_flag_in_cache': [repr(k) for k in flags], 'transactions_cached': list(cached)}
+                    sync = cached == 'sync'          # the whole address history is in the cache (gettransactions), then getutxos
+                    if sync:
+                        cached = (True,) * n
+                    scen = {'outputs_spent_flag_in_cache': [repr(k) for k in flags], 'transactions_cached': 'all, by gettransactions' if sync else list(cached)}
                     cases += 1
                     try:
                         srv = Service(network=net, cache_uri=db)
-                        for t, c in zip(state['chain'], cached):
-                            if c:
-                                srv.gettransaction(t.txid)
+                        if sync:
+                            srv.gettransactions(address)
+                        else:
+                            for t, c in zip(state['chain'], cached):
+                                if c:
+                                    srv.gettransaction(t.txid)
                         srv = Service(network=net, cache_uri=db)
                         got = [u['txid'] for u in srv.getutxos(address)]
                         if got != want:
